@@ -135,6 +135,25 @@ func c02ConcScenarios(up *world.Upstream) []*concScenario {
 		}}
 	}
 	var scs []*concScenario
+	// two genuine cookies of two users: each decodes to its own session
+	for _, store := range []string{"cookie:", "redis:"} {
+		store := store
+		scs = append(scs, &concScenario{Name: store + " genuine alice | genuine bobby on /oauth2/userinfo", prepare: func() (http.Handler, [2]*world.Req, func(int, *world.Resp) string, string) {
+			x, err := get()
+			if err != "" {
+				return nil, [2]*world.Req{}, nil, err
+			}
+			reset()
+			px := x.px
+			if store == "redis:" {
+				px = x.rx
+			}
+			r := func(i int, cookie string) *world.Req {
+				return &world.Req{Method: "GET", Target: "/oauth2/userinfo", Host: "app.example.com", Headers: [][2]string{{"Cookie", cookie}, {"X-Req", fmt.Sprint(i)}}}
+			}
+			return px.H, [2]*world.Req{r(0, x.ck[store+"alice"]), r(1, x.ck[store+"bobby"])}, view, ""
+		}})
+	}
 	for _, store := range []string{"cookie:", "redis:"} {
 		for _, how := range []string{"tail", "recombined", "value-swapped", "unsigned"} {
 			scs = append(scs, mk(store, how, "/oauth2/userinfo"))
